@@ -1,7 +1,7 @@
 #!/bin/bash
 # development aid: run every claimed check for several seeds on the current /repo tree,
 # from the directory this script lives in (a snapshot under `vp run`, or /verif)
-# usage: scripts/sweep.sh <tier> <seed>...
+# usage: [PROPS="C01 C10"] scripts/sweep.sh <tier> <seed>...
 tier=$1; shift
 here=$(cd "$(dirname "$0")/.." && pwd)
 cd "$here"
@@ -9,7 +9,7 @@ export GOFLAGS=-mod=mod GOPROXY=off GOSUMDB=off GOTOOLCHAIN=local
 mkdir -p bin && go1.26.8 build -o bin/ ./cmd/... || exit 2
 export VERIF_DIR="$here"
 for seed in "$@"; do
-  for p in $(python3 -c "import json;print(' '.join(c['property_id'] for c in json.load(open('$here/MANIFEST.json'))['checks']))"); do
+  for p in ${PROPS:-$(python3 -c "import json;print(' '.join(c['property_id'] for c in json.load(open('$here/MANIFEST.json'))['checks']))")}; do
     out=$(VERIF_SEED=$seed ./bin/verif check $p --tier $tier --no-evidence 2>&1); rc=$?
     echo "seed=$seed $p exit=$rc $(echo "$out" | tail -1 | cut -c1-200)"
     if [ $rc -ne 0 ]; then echo "$out" | grep -v "^WARNING" | head -20 | cut -c1-600; fi
